@@ -2,6 +2,7 @@ package main
 
 import (
 	"bufio"
+	"runtime/debug"
 	"crypto/sha1"
 	"encoding/hex"
 	"encoding/json"
@@ -111,6 +112,7 @@ func writeJSON(path string, v interface{}) {
 }
 
 func main() {
+	debug.SetMaxStack(256 << 20) // a runaway recursion in the library fails fast instead of eating 1 GB
 	if len(os.Args) < 2 {
 		fmt.Println("usage: harness <eval|codec|micro|history|race|c14|c20|replay> ...")
 		os.Exit(2)
